@@ -52,10 +52,11 @@ type Result struct {
 }
 
 type state struct {
-	dir  string
-	fset *token.FileSet
-	pkgs []*packages.Package
-	src  map[string][]byte
+	tpSubst map[types.Object]string // set by sameTypeParams for the call being inlined
+	dir     string
+	fset    *token.FileSet
+	pkgs    []*packages.Package
+	src     map[string][]byte
 }
 
 type funcInfo struct {
@@ -228,6 +229,83 @@ func Files(dir string) (map[string]string, error) {
 	return out, nil
 }
 
+// Edges lists, for every function declared in the tree at dir, the functions of the same
+// package it calls directly (stable names; closures belong to their enclosing function).
+func Edges(dir string) (map[string][]string, error) {
+	st, err := load(dir, nil)
+	if err != nil {
+		return nil, err
+	}
+	out := map[string][]string{}
+	for _, fi := range st.funcs() {
+		if fi.decl.Body == nil || strings.HasSuffix(st.fileName(fi.decl.Pos()), "_test.go") {
+			continue
+		}
+		set := map[string]bool{}
+		for _, c := range st.samePkgCalls(fi) {
+			set[c.name] = true
+		}
+		var names []string
+		for n := range set {
+			names = append(names, n)
+		}
+		sort.Strings(names)
+		out[fi.name] = names
+	}
+	return out, nil
+}
+
+type pkgCall struct {
+	name string
+	obj  *types.Func
+	call *ast.CallExpr
+}
+
+// samePkgCalls: the direct calls in fi's body whose callee is a function or method
+// declared in fi's own package.
+func (st *state) samePkgCalls(fi *funcInfo) []pkgCall {
+	var out []pkgCall
+	info := fi.pkg.TypesInfo
+	ast.Inspect(fi.decl.Body, func(n ast.Node) bool {
+		call, ok := n.(*ast.CallExpr)
+		if !ok {
+			return true
+		}
+		var id *ast.Ident
+		switch f := ast.Unparen(call.Fun).(type) {
+		case *ast.Ident:
+			id = f
+		case *ast.SelectorExpr:
+			id = f.Sel
+		case *ast.IndexExpr:
+			switch g := f.X.(type) {
+			case *ast.Ident:
+				id = g
+			case *ast.SelectorExpr:
+				id = g.Sel
+			}
+		case *ast.IndexListExpr:
+			switch g := f.X.(type) {
+			case *ast.Ident:
+				id = g
+			case *ast.SelectorExpr:
+				id = g.Sel
+			}
+		}
+		if id == nil {
+			return true
+		}
+		fn, ok := info.Uses[id].(*types.Func)
+		if !ok || fn.Pkg() == nil || fn.Pkg() != fi.pkg.Types {
+			return true
+		}
+		fn = fn.Origin()
+		out = append(out, pkgCall{NameOf(fn), fn, call})
+		return true
+	})
+	return out
+}
+
 // StructField is one field of a confirmed struct type.
 type StructField struct {
 	Name string `json:"name"`
@@ -323,20 +401,49 @@ func (st *state) fieldEdits(si *structInfo, want []StructField) ([]edit, string,
 	if len(want) != len(si.fields) {
 		return nil, "", fmt.Errorf("field count differs")
 	}
+	// fields may have been reordered as well: names present on both sides stay; the
+	// remaining current fields are matched with the remaining confirmed ones by type,
+	// which must be unambiguous
+	wantByName := map[string]StructField{}
+	for _, w := range want {
+		wantByName[w.Name] = w
+	}
+	haveName := map[string]bool{}
+	for _, f := range si.fields {
+		haveName[f.Name] = true
+	}
+	var missing []StructField
+	for _, w := range want {
+		if !haveName[w.Name] {
+			missing = append(missing, w)
+		}
+	}
 	target := map[*types.Var]string{}
 	var desc []string
+	used := map[string]bool{}
 	for i, f := range si.fields {
-		if f.Name == want[i].Name {
+		if _, ok := wantByName[f.Name]; ok {
 			continue
 		}
-		if f.Type != want[i].Type {
-			return nil, "", fmt.Errorf("field %d changed its type", i)
+		var cands []StructField
+		for _, m := range missing {
+			if m.Type == f.Type && !used[m.Name] {
+				cands = append(cands, m)
+			}
 		}
-		if si.vars[i] == nil || ast.IsExported(f.Name) || ast.IsExported(want[i].Name) {
+		// same type more than once: fall back on the position
+		if len(cands) > 1 && i < len(want) && want[i].Type == f.Type && !haveName[want[i].Name] && !used[want[i].Name] {
+			cands = []StructField{want[i]}
+		}
+		if len(cands) != 1 {
+			return nil, "", fmt.Errorf("field %s cannot be matched with a confirmed field", f.Name)
+		}
+		if si.vars[i] == nil || ast.IsExported(f.Name) || ast.IsExported(cands[0].Name) {
 			return nil, "", fmt.Errorf("field %s is embedded or exported", f.Name)
 		}
-		target[si.vars[i]] = want[i].Name
-		desc = append(desc, f.Name+" -> "+want[i].Name)
+		used[cands[0].Name] = true
+		target[si.vars[i]] = cands[0].Name
+		desc = append(desc, f.Name+" -> "+cands[0].Name)
 	}
 	if len(target) == 0 {
 		return nil, "", fmt.Errorf("nothing to do")
@@ -461,14 +568,15 @@ func (st *state) funcs() []*funcInfo {
 }
 
 // Normalise runs the pass.  inv is the inventory of the confirmed tree.
-func Normalise(dir string, overlay map[string][]byte, inv map[string]string, srcs map[string]Source, structs map[string][]StructField) (*Result, error) {
+func Normalise(dir string, overlay map[string][]byte, inv map[string]string, srcs map[string]Source, structs map[string][]StructField, edges map[string][]string) (*Result, error) {
 	res := &Result{Overlay: map[string][]byte{}}
 	for k, v := range overlay {
 		res.Overlay[k] = v
 	}
-	if !hasUnknown(dir, res.Overlay, inv, srcs, structs) {
+	if !hasUnknown(dir, res.Overlay, inv, srcs, structs, edges) {
 		return res, nil
 	}
+	allowed := map[string]map[string]bool{} // call edges the pass itself introduced
 	skip := map[string]string{}
 	changed := map[string]bool{}
 	label := 0
@@ -520,7 +628,9 @@ func Normalise(dir string, overlay map[string][]byte, inv map[string]string, src
 					if strings.HasSuffix(t, "."+own) {
 						t = strings.TrimSuffix(t, own) + "\x00"
 					}
-					b.WriteString(f.Name + " " + t + ";")
+					// by type only: the fields may have been renamed in the same commit
+					// (the field step that follows gives them their names back)
+					b.WriteString(t + ";")
 				}
 				return b.String()
 			}
@@ -597,14 +707,18 @@ func Normalise(dir string, overlay map[string][]byte, inv map[string]string, src
 			}
 			same := len(want) == len(si.fields)
 			if same {
-				for i := range want {
-					if want[i].Name != si.fields[i].Name {
+				names := map[string]bool{}
+				for _, w := range want {
+					names[w.Name] = true
+				}
+				for _, f := range si.fields {
+					if !names[f.Name] {
 						same = false
 					}
 				}
 			}
 			if same {
-				continue
+				continue // same field names (possibly reordered)
 			}
 			es, desc, err := st.fieldEdits(si, want)
 			if err != nil {
@@ -656,9 +770,7 @@ func Normalise(dir string, overlay map[string][]byte, inv map[string]string, src
 		if edits != nil {
 			missing = true
 		}
-		if edits == nil && len(unknown) == 0 && !missing {
-			break
-		}
+		_ = missing
 		// renames first
 		for _, u := range unknown {
 			if edits != nil {
@@ -738,6 +850,100 @@ func Normalise(dir string, overlay map[string][]byte, inv map[string]string, src
 				note = fmt.Sprintf("the confirmed helper %s is no longer declared (inlined into its callers?): its confirmed declaration was put back, unused, so that rules naming it resolve", name)
 				subject = "gone:" + name
 				break
+			}
+		}
+		if edits == nil && len(edges) > 0 {
+			// a confirmed function that now calls a confirmed helper of its package it did
+			// not call before (a hand-written loop replaced by the module's own Contains,
+			// Keys, Min, ...): the helper's current body is inlined at that call, so the
+			// rules about the caller see the loop again; the helper itself stays and is
+			// judged by its own rules
+			byName := map[string]*funcInfo{}
+			for _, fi := range fis {
+				byName[fi.name] = fi
+			}
+			for _, fi := range fis {
+				if edits != nil {
+					break
+				}
+				conf, ok := edges[fi.name]
+				if !ok || fi.decl.Body == nil {
+					continue
+				}
+				// everything the function could already reach in the confirmed tree (a call
+				// of remove() where removeLast() - which calls remove() - stood is not new)
+				was := map[string]bool{}
+				var reach func(n string)
+				reach = func(n string) {
+					if was[n] {
+						return
+					}
+					was[n] = true
+					for _, m := range edges[n] {
+						reach(m)
+					}
+				}
+				for _, n := range conf {
+					reach(n)
+				}
+				for _, c := range st.samePkgCalls(fi) {
+					h := byName[c.name]
+					if h == nil || was[c.name] || allowed[fi.name][c.name] || c.name == fi.name {
+						continue
+					}
+					if _, confirmedHelper := inv[c.name]; !confirmedHelper {
+						continue
+					}
+					// only helpers that change nothing outside themselves: a new call of a
+					// state-changing primitive (put, remove, moveAfter ...) must stay a call,
+					// the who-may-call rules are about exactly those edges
+					if why := st.impure(h, byName, map[string]bool{}); why != "" {
+						skip["edge:"+fi.name+">"+c.name] = why
+						continue
+					}
+					key := "edge:" + fi.name + ">" + c.name
+					if skip[key] != "" {
+						continue
+					}
+					// not recursive (directly)
+					rec := false
+					for _, hc := range st.samePkgCalls(h) {
+						if hc.name == c.name {
+							rec = true
+						}
+					}
+					if rec {
+						skip[key] = "recursive helper"
+						continue
+					}
+					var file *ast.File
+					for _, f := range fi.pkg.Syntax {
+						if f.Pos() <= c.call.Pos() && c.call.Pos() < f.End() {
+							file = f
+						}
+					}
+					path, _ := astutil.PathEnclosingInterval(file, c.call.Pos(), c.call.End())
+					for len(path) > 0 && path[0] != ast.Node(c.call) {
+						path = path[1:]
+					}
+					label++
+					es, err := st.inlineCall(h, c.call, path, file, fi.pkg, label)
+					if err != nil {
+						skip[key] = err.Error()
+						res.Notes = append(res.Notes, fmt.Sprintf("left the new call of %s in %s as written: %v", c.name, fi.name, err))
+						continue
+					}
+					edits = es
+					note = fmt.Sprintf("%s now calls %s, which it did not in the confirmed tree: the helper's body was inlined at that call (the helper itself stays)", fi.name, c.name)
+					subject = key
+					if allowed[fi.name] == nil {
+						allowed[fi.name] = map[string]bool{}
+					}
+					for _, n := range edges[c.name] {
+						allowed[fi.name][n] = true
+					}
+					break
+				}
 			}
 		}
 		if edits == nil {
@@ -1393,6 +1599,17 @@ func (st *state) inlineCall(u *funcInfo, call *ast.CallExpr, path []ast.Node, fi
 		return &ast.BlockStmt{List: out}
 	}
 	needLabel := !tail && !singleExit
+	if len(st.tpSubst) > 0 {
+		// type parameters of the helper that carry another name (or a concrete type) here
+		body = astutil.Apply(body, nil, func(c *astutil.Cursor) bool {
+			if id, ok := c.Node().(*ast.Ident); ok {
+				if nn, ok := st.tpSubst[cinfo.Uses[id]]; ok && cinfo.Uses[id] != nil {
+					c.Replace(&ast.Ident{NamePos: id.NamePos, Name: nn})
+				}
+			}
+			return true
+		}).(*ast.BlockStmt)
+	}
 	newBody := astutil.Apply(body, func(c *astutil.Cursor) bool {
 		if _, ok := c.Node().(*ast.FuncLit); ok {
 			return false
@@ -1585,10 +1802,20 @@ func inside(n, outer ast.Node) bool {
 // name: only then does the helper's source text mean the same thing at the call site.
 func (st *state) sameTypeParams(u *funcInfo, call *ast.CallExpr, info *types.Info) error {
 	sig := u.obj.Type().(*types.Signature)
+	st.tpSubst = map[types.Object]string{}
+	q := func(p *types.Package) string {
+		if p == u.pkg.Types {
+			return ""
+		}
+		return p.Name()
+	}
 	check := func(tp *types.TypeParam, arg types.Type) error {
 		a, ok := arg.(*types.TypeParam)
 		if !ok || a.Obj().Name() != tp.Obj().Name() {
-			return fmt.Errorf("type parameter %s is instantiated with %s at the call", tp.Obj().Name(), arg)
+			// the helper's text names its type parameter; at the call site it stands for
+			// arg: occurrences in the inlined body are rewritten (same package only, so
+			// the printed type means the same thing there)
+			st.tpSubst[tp.Obj()] = types.TypeString(arg, q)
 		}
 		return nil
 	}
@@ -1642,10 +1869,14 @@ func (st *state) sameTypeParams(u *funcInfo, call *ast.CallExpr, info *types.Inf
 // hasUnknown parses (only) the module's non-test files and reports whether an
 // unexported function outside the inventory is declared; false lets the pass return
 // at once, which is the case on the unchanged tree.
-func hasUnknown(dir string, overlay map[string][]byte, inv map[string]string, srcs map[string]Source, structs map[string][]StructField) bool {
+func hasUnknown(dir string, overlay map[string][]byte, inv map[string]string, srcs map[string]Source, structs map[string][]StructField, edges map[string][]string) bool {
 	found := false
 	seenNames := map[string]bool{}
-	defer func() {}()
+	// bare names of the confirmed functions and methods, per package
+	pkgFuncNames := map[string]bool{}
+	for n := range inv {
+		pkgFuncNames[pkgOf(n)+"."+n[strings.LastIndex(n, ".")+1:]] = true
+	}
 	fset := token.NewFileSet()
 	filepath.WalkDir(dir, func(path string, d os.DirEntry, err error) error {
 		if err != nil {
@@ -1695,8 +1926,12 @@ func hasUnknown(dir string, overlay map[string][]byte, inv map[string]string, sr
 						}
 					}
 					if len(names) == len(want) {
+						ws := map[string]bool{}
+						for _, w := range want {
+							ws[w.Name] = true
+						}
 						for i := range names {
-							if names[i] != "" && names[i] != want[i].Name {
+							if names[i] != "" && !ws[names[i]] {
 								found = true
 							}
 						}
@@ -1739,6 +1974,35 @@ func hasUnknown(dir string, overlay map[string][]byte, inv map[string]string, sr
 					found = true
 				}
 				continue
+			}
+			// a call of a confirmed function of the package that this function did not
+			// call before (by bare name; the typed pass decides)
+			if conf, ok := edges[name]; ok && fd.Body != nil {
+				bare := map[string]bool{}
+				for _, c := range conf {
+					bare[c[strings.LastIndex(c, ".")+1:]] = true
+				}
+				ast.Inspect(fd.Body, func(n ast.Node) bool {
+					call, ok := n.(*ast.CallExpr)
+					if !ok {
+						return true
+					}
+					var nm string
+					switch f := call.Fun.(type) {
+					case *ast.Ident:
+						nm = f.Name
+					case *ast.SelectorExpr:
+						nm = f.Sel.Name
+					case *ast.IndexExpr:
+						if id, ok := f.X.(*ast.Ident); ok {
+							nm = id.Name
+						}
+					}
+					if nm != "" && !bare[nm] && pkgFuncNames[f.Name.Name+"."+nm] {
+						found = true
+					}
+					return true
+				})
 			}
 			if _, names := splitInv(full); names != nil {
 				cur := declNames(fd)
@@ -1829,4 +2093,161 @@ func (st *state) paramEdits(fi *funcInfo, cur, want []string) ([]edit, error) {
 		return nil, clash
 	}
 	return es, nil
+}
+
+// impure explains why the confirmed helper h may change state outside itself ("" when it
+// cannot): it assigns only to its own locals (and to elements of slices/maps it created
+// itself), starts nothing, defers nothing, and calls only builtins, conversions, function
+// values it was given, read-only standard library functions and helpers of the module
+// that are pure in the same sense.
+func (st *state) impure(h *funcInfo, byName map[string]*funcInfo, seen map[string]bool) string {
+	if seen[h.name] {
+		return ""
+	}
+	seen[h.name] = true
+	if h.decl.Body == nil {
+		return "no body"
+	}
+	info := h.pkg.TypesInfo
+	params := map[types.Object]bool{}
+	addFields := func(fl *ast.FieldList) {
+		if fl == nil {
+			return
+		}
+		for _, f := range fl.List {
+			for _, n := range f.Names {
+				if o := info.Defs[n]; o != nil {
+					params[o] = true
+				}
+			}
+		}
+	}
+	addFields(h.decl.Recv)
+	addFields(h.decl.Type.Params)
+	isLocal := func(id *ast.Ident) bool {
+		o := info.Uses[id]
+		if o == nil {
+			o = info.Defs[id]
+		}
+		if o == nil {
+			return id.Name == "_"
+		}
+		if params[o] {
+			return false
+		}
+		v, ok := o.(*types.Var)
+		return ok && !v.IsField() && v.Pkg() == h.pkg.Types && v.Parent() != h.pkg.Types.Scope() && h.decl.Pos() <= v.Pos() && v.Pos() < h.decl.End()
+	}
+	// locals that were given fresh storage (make, composite literal, nil/zero value)
+	why := ""
+	lhsOK := func(e ast.Expr) bool {
+		switch x := ast.Unparen(e).(type) {
+		case *ast.Ident:
+			return isLocal(x) || x.Name == "_"
+		case *ast.IndexExpr:
+			if id, ok := ast.Unparen(x.X).(*ast.Ident); ok && isLocal(id) {
+				return true
+			}
+		}
+		return false
+	}
+	roPkgs := map[string]bool{"strings": true, "unicode": true, "unicode/utf8": true, "math": true, "errors": true, "strconv": true, "reflect": true, "fmt": true, "golang.org/x/exp/constraints": true}
+	ast.Inspect(h.decl.Body, func(n ast.Node) bool {
+		if why != "" {
+			return false
+		}
+		switch x := n.(type) {
+		case *ast.AssignStmt:
+			for _, l := range x.Lhs {
+				if !lhsOK(l) {
+					why = "assigns to something that is not its own local"
+				}
+			}
+		case *ast.IncDecStmt:
+			if !lhsOK(x.X) {
+				why = "changes something that is not its own local"
+			}
+		case *ast.GoStmt, *ast.DeferStmt, *ast.SendStmt:
+			why = "starts, defers or sends"
+		case *ast.UnaryExpr:
+			if x.Op == token.ARROW {
+				why = "receives from a channel"
+			}
+		case *ast.CallExpr:
+			if tv, ok := info.Types[x.Fun]; ok && tv.IsType() {
+				return true
+			}
+			var id *ast.Ident
+			switch f := ast.Unparen(x.Fun).(type) {
+			case *ast.Ident:
+				id = f
+			case *ast.SelectorExpr:
+				id = f.Sel
+			case *ast.IndexExpr:
+				switch g := f.X.(type) {
+				case *ast.Ident:
+					id = g
+				case *ast.SelectorExpr:
+					id = g.Sel
+				}
+			case *ast.IndexListExpr:
+				switch g := f.X.(type) {
+				case *ast.Ident:
+					id = g
+				case *ast.SelectorExpr:
+					id = g.Sel
+				}
+			}
+			if id == nil {
+				why = "calls something that cannot be resolved"
+				return false
+			}
+			switch o := info.Uses[id].(type) {
+			case *types.Builtin:
+				switch o.Name() {
+				case "delete", "clear", "close", "copy", "print", "println":
+					why = "uses the builtin " + o.Name()
+				case "append":
+					// appending onto something that is not its own local may fill the
+					// caller's spare capacity
+					if len(x.Args) > 0 {
+						if a, ok := ast.Unparen(x.Args[0]).(*ast.Ident); !ok || !isLocal(a) {
+							if _, isLit := ast.Unparen(x.Args[0]).(*ast.CompositeLit); !isLit {
+								why = "appends onto something that is not its own local"
+							}
+						}
+					}
+				}
+			case *types.Var:
+				// a function value: a parameter or local (the caller's callback)
+				if o.IsField() {
+					why = "calls a function stored in a field"
+				}
+			case *types.Func:
+				fn := o.Origin()
+				if fn.Pkg() == nil {
+					return true
+				}
+				if g := byName[NameOf(fn)]; g != nil {
+					if w := st.impure(g, byName, seen); w != "" {
+						why = "calls " + NameOf(fn) + ", which " + w
+					}
+					return true
+				}
+				if roPkgs[fn.Pkg().Path()] {
+					return true
+				}
+				if fn.Pkg().Path() == "sort" && len(x.Args) > 0 {
+					if a, ok := ast.Unparen(x.Args[0]).(*ast.Ident); ok && isLocal(a) {
+						return true
+					}
+				}
+				why = "calls " + fn.Pkg().Path() + "." + fn.Name()
+			default:
+				why = "calls something that cannot be resolved"
+			}
+		}
+		return true
+	})
+	return why
 }
